@@ -14,6 +14,8 @@ import (
 var profC08 = Profile{
 	MaxProcs: 4, MaxItems: 6, LongStreams: []int{40}, Bufsizes: []int{0, 1, 2, 3}, MaxSlots: 8,
 	MultiOut: true, FanIn: true, FanOut: true, Params: true, Zip: true, TwoSources: true, Custom: true,
+	// (tagging components pass their items on: in arrival order, tagged or not)
+	Taggers: true,
 }
 
 // orderOracle compares the sequence recorded on every recorded edge with the
@@ -23,7 +25,7 @@ func orderOracle(inc *Inc, ex *Expect) Verdict {
 	// map: path -> producing task (to find which input an output stems from)
 	for ni := range w.Nodes {
 		n := &w.Nodes[ni]
-		if n.Kind != KProc || !n.Rec || !ex.Active[n.Name] {
+		if (n.Kind != KProc && n.Kind != KMapToTags) || !n.Rec || !ex.Active[n.Name] {
 			continue
 		}
 		for _, o := range n.Outs {
@@ -161,7 +163,7 @@ func init() {
 			} else {
 				w = Generate(c.Tape, tierProfile(profC08, c.Tier))
 				for i := range w.Nodes {
-					if w.Nodes[i].Kind == KProc {
+					if w.Nodes[i].Kind == KProc || w.Nodes[i].Kind == KMapToTags {
 						w.Nodes[i].Rec = true
 					}
 				}
